@@ -2,36 +2,61 @@
 C17 — Wire framing is exact and body reassembly is independent of chunking.
 
 Model   : lean/JRV/Model/Wire.lean
-Theorems: lean/JRV/Properties/C17.lean
+Theorems: lean/JRV/Properties/C17.lean (property), lean/JRV/Properties/C17Gen.lean (companions of extracted facts)
 Tie     : extracted facts (tools/extractors/wire.py) + differential correspondence on
           * the client's response path (JSONTarget and the real Transport.parse_response, identity and gzip),
           * the server's body read loop (do_POST driven through a fake connection with short reads),
-          * the Content-Length / Content-Type lines of client requests, server replies and CGI output,
-          * request targets and scheme checks of ServerProxy.
+          * the whole of do_POST: 200 replies (text, "", None) and 500/fault replies (dispatcher raising, undecodable
+            or short body, missing/bad Content-Length header),
+          * the Content-Length / Content-Type lines of client requests, server replies and CGI output (CGI with
+            several `encoding=` values),
+          * the REQUEST LINE: a real ServerProxy call / notification through the real Transport.request ->
+            single_request -> send_request -> putrequest -> send_content, captured (a) as bytes from the real
+            http.client request writer over an in-memory socket (harness/wirepeer.RecConn, returned by an overridden
+            make_connection of the real Transport / SafeTransport / UnixTransport) and (b) for a sample, as bytes read
+            by a raw recording socket peer (TCP for http, a Unix socket for unix+http with the real UnixTransport),
+          * scheme checks of ServerProxy.
 Monitor : the property statement on the captured bytes / texts.
+
+What "path plus query string unchanged" means here: the URL is built by the generator as
+scheme://netloc + path + ["?" + query], so the monitor knows path and query by construction (it does not ask
+urlparse).  A bare "?" (present, empty query) contributes nothing: urlparse drops it and the library requests the
+path alone - the monitor accepts exactly that (documented assumption).  ';' path parameters (for http/https urlparse
+splits ";params" off the LAST path segment) and '#' fragments are outside the property's quantifier: such URLs are
+counted as excluded, never generated on purpose except to count them.
 """
 import gzip
 import io
 import itertools
 import json
+import shutil
+import socket
 import sys
+import tempfile
 from urllib.parse import urlparse
 
+import core
 import impl
 import pyval
+import wirepeer
 
 REQUIRED_THEOREMS = [
-    "C17_content_length", "C17_body_bytes", "C17_bytes_not_chars", "C17_reassembly_client", "C17_reassembly_client_empty",
+    "C17_content_length", "C17_do_post_framing", "C17_cgi_length", "C17_cgi_single_byte", "C17_body_bytes",
+    "C17_bytes_not_chars", "C17_reassembly_client", "C17_reassembly_client_empty",
     "C17_server_prefix", "C17_reassembly_server", "C17_chunking_independent", "C17_chunkwise_not_independent",
     "C17_target", "C17_scheme",
     "C17_gen_lenAfterToBytes", "C17_gen_serverDecodesAfterJoin", "C17_gen_clientDecodesAfterJoin", "C17_gen_maxChunk",
-    "C17_gen_contentTypeFromConfig", "C17_gen_schemes",
+    "C17_gen_contentTypeFromConfig", "C17_gen_schemes", "C17_gen_handlerFromUrl", "C17_gen_targetForwarded",
 ]
 
 MAXCHUNK = 10 * 1024 * 1024
 
 TEXTS = ["", "{}", "é", "日本語", "a\U0001f600b", '{"jsonrpc": "2.0", "id": 1, "method": "echo", "params": ["é"]}',
          "x" * 40, "é" * 7, "\u00e9\u0301", "\x00", '{"k": "\u20ac"}']
+
+CGI_ENCODINGS = ["UTF-8", "utf-8", "utf8", "latin-1", "iso-8859-1", "ascii", "utf-16", "utf-16-le", "cp1252", "no-such-codec"]
+
+SUPPORTED = ("http", "https", "unix+http")
 
 
 def hx(b):
@@ -115,24 +140,51 @@ class ShortReads(io.RawIOBase):
         return out
 
 
-def drive_do_post(body_bytes, sizes, cfg, declared=None, reply_text=None):
-    """Runs the real do_POST on a fake connection; returns (status, text given to the dispatcher, header lines, written bytes)."""
-    S = impl.jsonrpclib.SimpleJSONRPCServer if hasattr(impl.jsonrpclib, "SimpleJSONRPCServer") else None
+class _Headers(dict):
+    """Like email.message.Message: a missing header reads as None."""
+
+    def __getitem__(self, k):
+        return self.get(k)
+
+
+class DispatchBoom(Exception):
+    pass
+
+
+def make_dispatch(spec, got):
+    """spec: "echo" | "none" | "empty" | "raise" | ["text", t]  ->  a _marshaled_dispatch for the fake server."""
+    def dispatch(self, data, dispatch_method=None, path=None):
+        got.append(data)
+        if spec == "echo":
+            return data
+        if spec == "none":
+            return None
+        if spec == "empty":
+            return ""
+        if spec == "raise":
+            raise DispatchBoom("dispatcher failure é")
+        return spec[1]
+    return dispatch
+
+
+def drive_do_post(body_bytes, sizes, cfg, declared=None, reply_text=None, dispatch=None):
+    """Runs the real do_POST on a fake connection; returns (status, text given to the dispatcher, header lines, written bytes).
+    `declared`: the Content-Length header value (default: the body's length; "missing" = no header)."""
     import jsonrpclib.SimpleJSONRPCServer as SRV
     got = []
+    spec = dispatch if dispatch is not None else (["text", reply_text] if reply_text is not None else "echo")
 
     class FakeServer(object):
         json_config = cfg
         logRequests = False
-
-        def _marshaled_dispatch(self, data, dispatch_method=None, path=None):
-            got.append(data)
-            return reply_text if reply_text is not None else data
+        _marshaled_dispatch = make_dispatch(spec, got)
 
     h = SRV.SimpleJSONRPCRequestHandler.__new__(SRV.SimpleJSONRPCRequestHandler)
     h.server = FakeServer()
     h.path = "/"
-    h.headers = {"content-length": str(len(body_bytes) if declared is None else declared)}
+    h.headers = _Headers()
+    if declared != "missing":
+        h.headers["content-length"] = str(len(body_bytes) if declared is None else declared)
     h.rfile = ShortReads(body_bytes, sizes)
     h.wfile = io.BytesIO()
     h.request_version = "HTTP/1.1"
@@ -145,19 +197,337 @@ def drive_do_post(body_bytes, sizes, cfg, declared=None, reply_text=None):
     h.end_headers = lambda: None
     h.is_rpc_path_valid = lambda: True
     h.decode_request_content = lambda data: data
-    h.do_POST()
+    try:
+        h.do_POST()
+    except Exception as ex:  # noqa: BLE001 - do_POST must frame a reply whatever happens inside its try block
+        status.append("do_POST raised %s" % type(ex).__name__)
     return status, got, lines, h.wfile.getvalue()
 
 
+def reply_frame_monitor(hlines, written, cfg):
+    """The statement on a reply whose text the harness did not choose: declared length == bytes written,
+    configured content type, exactly one of each."""
+    d = {}
+    for k, v in hlines:
+        d.setdefault(k.lower(), []).append(v)
+    if d.get("content-length") != [str(len(written))]:
+        return "Content-Length %r, %d body bytes were written" % (d.get("content-length"), len(written))
+    if d.get("content-type") != [cfg.content_type]:
+        return "Content-Type %r, configured %r" % (d.get("content-type"), cfg.content_type)
+    return None
+
+
+def frame_monitor(hlines, written, text, cfg):
+    body = text.encode("utf-8")
+    d = {}
+    for k, v in hlines:
+        d.setdefault(k.lower(), []).append(v)
+    if d.get("content-length") != [str(len(body))]:
+        return "Content-Length %r, body has %d bytes" % (d.get("content-length"), len(body))
+    if d.get("content-type") != [cfg.content_type]:
+        return "Content-Type %r, configured %r" % (d.get("content-type"), cfg.content_type)
+    if written is not None and written != body:
+        return "body bytes %r differ from the encoding of %r" % (written[:40], text[:40])
+    return None
+
+
+def wire_frame_monitor(rec, cfg):
+    """The statement on a request captured as bytes (wirepeer.Record): one Content-Length equal to the number of body
+    bytes that followed the header block, one Content-Type equal to the configured one."""
+    if rec.note in ("short-body", "no-head"):
+        return "request incomplete on the wire (%s): declared Content-Length %r, %d body bytes arrived" % (
+            rec.note, rec.header_values("content-length"), len(rec.after_head))
+    cl = rec.header_values("content-length")
+    if cl != [str(len(rec.after_head)).encode("ascii")]:
+        return "Content-Length %r on the wire, %d body bytes followed" % (cl, len(rec.after_head))
+    ct = rec.header_values("content-type")
+    try:
+        want = cfg.content_type.encode("latin-1")
+    except UnicodeEncodeError:
+        return None
+    if ct != [want]:
+        return "Content-Type %r on the wire, configured %r" % (ct, cfg.content_type)
+    return None
+
+
+# --------------------------------------------------------------------------------------------
+# CGI
+
+
+def run_cgi(SRV, cfg, text, encoding=None):
+    """Runs the real handle_jsonrpc with stdout captured; returns (outcome, header lines, body bytes, raw header text)."""
+    class Out(io.StringIO):
+        def __init__(self):
+            io.StringIO.__init__(self)
+            self.buffer = io.BytesIO()
+
+    if encoding is None:
+        h = SRV.CGIJSONRPCRequestHandler(config=cfg)
+    else:
+        h = SRV.CGIJSONRPCRequestHandler(encoding=encoding, config=cfg)
+    h._marshaled_dispatch = lambda request_text, *a, **k: text
+    old = sys.stdout
+    out = Out()
+    sys.stdout = out
+    try:
+        k, v = impl.outcome(h.handle_jsonrpc, "{}")
+    finally:
+        sys.stdout = old
+    head = out.getvalue()
+    hl = []
+    for ln in head.splitlines():
+        if ":" in ln:
+            kk, vv = ln.split(":", 1)
+            hl.append((kk.strip(), vv.strip()))
+    return (k, v), hl, out.buffer.getvalue(), head
+
+
+def cgi_monitor(outcome, hl, body, head, text, cfg, encoding):
+    k, v = outcome
+    if k != "ok":
+        # an unencodable reply (or unknown codec) raises: not a framing violation provided nothing was emitted
+        if head or body:
+            return "CGI handler raised %s after emitting %r / %d body bytes" % (type(v).__name__, head[:60], len(body))
+        return None
+    m = reply_frame_monitor(hl, body, cfg)
+    if m:
+        return m
+    try:
+        if body.decode(encoding or "UTF-8") != text:
+            return "CGI body bytes %r are not the %s encoding of %r" % (body[:40], encoding, text[:40])
+    except (UnicodeDecodeError, LookupError) as ex:
+        return "CGI body bytes %r do not decode with %s: %s" % (body[:40], encoding, ex)
+    return None
+
+
+# --------------------------------------------------------------------------------------------
+# URLs and request targets
+
+PATH_SEGS = ["", ".", "..", "a", "RPC2", "api", "v1", "%2f", "%2F", "a%20b", "a+b", "~u", "a:b", "@", "a=b", "a&b", "a;b",
+             "-", "_", "x.y", "%C3%A9", "%c3%a9", "%25", "%", "é", "日本", "a,b", "(x)", "!$'*", "tmp", "sock.s"]
+QUERY_PARTS = ["a=1", "a=b=c", "x", "q=é", "a=%2F", "a=%2f", "s=a+b", "s=a%20b", "a?b", "?", "k=", "=v", "", "a=1;b=2", "/",
+               "//", ":@", "p=/a/../b", "%", "%zz", "t=~-._", "u=http://h/p?x"]
+URL_ALPHA = "abzAZ019/.%+~:@=&;-_!$'()*,"
+NETLOCS = ["host:8080", "127.0.0.1:1", "h", "user:pw@host:99", "[::1]:8080", "EXAMPLE.org"]
+
+
+def gen_path(rng):
+    r = rng.random()
+    if r < 0.06:
+        return ""
+    if r < 0.10:
+        return "/"
+    n = rng.randint(1, 5)
+    segs = []
+    for _ in range(n):
+        q = rng.random()
+        if q < 0.7:
+            segs.append(rng.choice(PATH_SEGS))
+        elif q < 0.9:
+            segs.append("".join(rng.choice(URL_ALPHA.replace("/", "")) for _ in range(rng.randint(1, 8))))
+        else:
+            segs.append("".join(rng.choice(URL_ALPHA) for _ in range(rng.randint(1, 12))))
+    path = "/" + "/".join(segs)
+    q = rng.random()
+    if q < 0.3:
+        path += "/"
+    elif q < 0.36:
+        path += "//"
+    q = rng.random()
+    if q < 0.1:
+        path = "/" + path
+    elif q < 0.15:
+        path = "//" + path
+    return path
+
+
+def gen_query(rng):
+    """Returns (has_question_mark, query)."""
+    r = rng.random()
+    if r < 0.25:
+        return False, ""
+    if r < 0.33:
+        return True, ""  # bare '?'
+    if r < 0.40:
+        # long query: several KB
+        unit = rng.choice(["k=v&", "a%20b+", "x", "=;/?:@"])
+        return True, unit * rng.randint(500, 3000)
+    n = rng.randint(1, 4)
+    parts = []
+    for _ in range(n):
+        if rng.random() < 0.75:
+            parts.append(rng.choice(QUERY_PARTS))
+        else:
+            parts.append("".join(rng.choice(URL_ALPHA + "?") for _ in range(rng.randint(1, 10))))
+    return True, "&".join(parts)
+
+
+def build_uri(pc):
+    return "%s://%s%s%s" % (pc.get("scheme_text", pc["scheme"]), pc["netloc"], pc["path"], ("?" + pc["query"]) if pc["has_q"] else "")
+
+
+def expected_target(pc):
+    """From the property statement: path + ("?" + query when there is a query), "/" for an empty path, always "/" + query
+    for unix+http."""
+    base = "/" if (pc["scheme"] == "unix+http" or not pc["path"]) else pc["path"]
+    return base + (("?" + pc["query"]) if pc["query"] else "")
+
+
+def excluded(pc):
+    """URLs outside the property's quantifier: ';' path parameters (where urlparse takes them) and '#' fragments."""
+    if "#" in pc["path"] or "#" in pc["query"] or "#" in pc["netloc"]:
+        return "fragment"
+    if pc["scheme"] in ("http", "https") and ";" in pc["path"].rsplit("/", 1)[-1]:
+        return "params"
+    return None
+
+
+def encodable(target):
+    """What http.client's putrequest accepts: ASCII without control characters, space or DEL."""
+    try:
+        b = target.encode("ascii")
+    except UnicodeEncodeError:
+        return False
+    return not any(c <= 0x20 or c == 0x7f for c in b)
+
+
+class Env(object):
+    """Per-run resources: configurations, scratch directory, the two socket peers (created on first use)."""
+
+    def __init__(self):
+        self.J = impl.jsonrpclib.jsonrpc
+        self.cfg = impl.jsonrpclib.config.Config()
+        self.tmpdir = None
+        self.peers = {}
+        self.old_timeout = socket.getdefaulttimeout()
+
+    def peer(self, kind):
+        if kind not in self.peers:
+            if self.tmpdir is None:
+                self.tmpdir = tempfile.mkdtemp(prefix="jrv-c17-")
+            socket.setdefaulttimeout(60)
+            self.peers[kind] = wirepeer.WirePeer(kind, self.tmpdir)
+        return self.peers[kind]
+
+    def close(self):
+        for p in self.peers.values():
+            p.stop()
+        self.peers = {}
+        socket.setdefaulttimeout(self.old_timeout)
+        if self.tmpdir is not None:
+            shutil.rmtree(self.tmpdir, ignore_errors=True)
+            self.tmpdir = None
+
+
+def send_through(env, pc, via, kind, cfg=None):
+    """
+    A real ServerProxy on the URL described by `pc`, one call or notification.  Returns
+    (uri, pieces actually used, outcome, putrequest_args or None, [wire records]).
+    via "rec": real transport of the scheme with make_connection returning a wirepeer.RecConn;
+    via "tcp"/"unix": default transport over a real socket to the raw recording peer (netloc / socket path of the peer
+    substituted into the URL).
+    """
+    J = env.J
+    cfg = cfg or env.cfg
+    pc = dict(pc)
+    t = None
+    if via == "rec":
+        if pc["scheme"] == "https":
+            t = wirepeer.recording_transport(J.SafeTransport, cfg, None)
+        elif pc["scheme"] == "unix+http":
+            t = wirepeer.recording_transport(J.UnixTransport, cfg, pc["path"] or None)
+        else:
+            t = wirepeer.recording_transport(J.Transport, cfg)
+    elif via == "tcp":
+        pc["scheme"], pc["netloc"] = "http", env.peer("tcp").netloc()
+        pc.pop("scheme_text", None)
+    elif via == "unix":
+        pc["scheme"], pc["netloc"], pc["path"] = "unix+http", "", env.peer("unix").path
+        pc.pop("scheme_text", None)
+    else:
+        raise ValueError(via)
+    uri = build_uri(pc)
+    k, p = impl.outcome(J.ServerProxy, uri, transport=t, config=cfg)
+    if k != "ok":
+        return uri, pc, (k, p), None, []
+    try:
+        if kind == "notify":
+            out = impl.outcome(p._notify.ping, 1)
+        else:
+            out = impl.outcome(p.ping, 1)
+    finally:
+        try:
+            p("close")()
+        except Exception:  # noqa: BLE001
+            pass
+    if via == "rec":
+        args = [r for c in t.rec_conns for r in c.requests]
+        recs = [c.record() for c in t.rec_conns if c.record() is not None]
+    else:
+        args = None
+        recs = env.peer(via).collect()
+        if out[0] == "err" and isinstance(out[1], (socket.timeout, ConnectionError)):
+            raise core.InfraError("socket trouble talking to the recording peer (%s): %r" % (via, out[1]))
+    return uri, pc, out, args, recs
+
+
+def target_monitor(pc, out, args, recs, cfg):
+    """The statement on one proxy request.  Returns (verdict, detail, captured target or None); verdict in
+    "ok" | "rejected" (http.client refused to write the target: nothing was emitted) | "violation"."""
+    want = expected_target(pc)
+    if args is not None:
+        if len(args) != 1:
+            return "violation", "%d putrequest calls for one proxy request: %r" % (len(args), args[:3]), None
+        if args[0] != ("POST", want):
+            return "violation", "request target %r handed to putrequest, expected %r" % (args[0][1], want), args[0][1]
+    if not encodable(want):
+        # http.client refuses such a target before any byte is written: nothing emitted is not a wrong emission
+        if recs and any(r.raw for r in recs):
+            return "violation", "bytes were emitted for a target http.client cannot write: %r" % (recs[0].request_line[:80],), None
+        if out[0] != "err":
+            return "violation", "request with an unwritable target %r reported success" % want[:80], None
+        return "rejected", type(out[1]).__name__, (args[0][1] if args else None)
+    if len(recs) != 1:
+        return "violation", "%d requests on the wire for one proxy request (outcome %r)" % (len(recs), out), None
+    rec = recs[0]
+    line = ("POST %s HTTP/1.1" % want).encode("ascii")
+    if rec.request_line != line:
+        got = rec.target()
+        return "violation", "request line %r on the wire, expected %r" % (rec.request_line[:300], line[:300]), (
+            got.decode("latin-1") if got is not None else None)
+    m = wire_frame_monitor(rec, cfg)
+    if m:
+        return "violation", m, want
+    if out[0] != "ok":
+        return "violation", "request written correctly but the call failed: %r" % (out[1],), want
+    return "ok", "", want
+
+
+# --------------------------------------------------------------------------------------------
+
+
 def run(ctx):
+    env = Env()
+    try:
+        _run(ctx, env)
+    finally:
+        env.close()
+
+
+def _run(ctx, env):
     import jsonrpclib.SimpleJSONRPCServer as SRV
-    J = impl.jsonrpclib.jsonrpc
+    J = env.J
     cfgs = [impl.jsonrpclib.config.Config(content_type=ct) for ct in ("application/json-rpc", "application/json", "text/x-é")]
-    ctx.rule = ("bodies (ASCII and multi-byte UTF-8, 0 bytes to a few KB; thorough adds one body beyond the 10 MiB read-chunk size) "
-                "x chunkings (all 2^(n-1) splits of bodies up to 10 (quick) / 12 (thorough) bytes, random cuts otherwise) through "
-                "JSONTarget, Transport.parse_response (identity and gzip) and do_POST with short reads; Content-Length/"
-                "Content-Type lines of client, server and CGI for each body x content type; URL targets over paths/queries "
-                "with percent-escapes and every scheme; distinct_nontrivial = chunkings with a cut inside a multi-byte character")
+    ctx.rule = ("bodies (ASCII and multi-byte UTF-8, 0 bytes to a few KB, plus one body beyond the 10 MiB read-chunk size with a "
+                "multi-byte character on the boundary) x chunkings (all 2^(n-1) splits of bodies up to 10 (quick) / 12 (thorough) "
+                "bytes, random cuts otherwise) through JSONTarget, Transport.parse_response (identity and gzip) and do_POST with "
+                "short reads; do_POST replies for dispatcher results text/''/None/raise, undecodable and short bodies, bad "
+                "Content-Length headers; Content-Length/Content-Type lines of client, server and CGI (10 encoding= values) for "
+                "each body x content type; request lines of real ServerProxy calls/notifications captured as bytes (in-memory "
+                "http.client connection for http/https/unix+http; raw TCP and Unix-socket peers for a sample) over random "
+                "paths/queries (percent-escapes in both cases, dot segments, repeated/trailing slashes, bare '?', several-KB "
+                "queries) and every scheme; distinct_nontrivial = chunkings with a cut inside a multi-byte character, "
+                "non-ASCII frames, distinct (scheme, path, query) targets")
     lines, impl_out = [], []
 
     def boundary_inside_char(chunks):
@@ -192,10 +562,11 @@ def run(ctx):
             parts = random_cuts(ctx.rng, raw, 5)
             resp = ChunkResponse(parts, {"content-encoding": "gzip"})
         else:
+            parts = chunks
             resp = ChunkResponse(chunks, {})
         k, v = impl.outcome(t.parse_response, resp)
         if k != "ok" or v != text:
-            ctx.violate({"body_hex": body.hex(), "chunks": [c.hex() for c in chunks], "gzip": gz, "via": "parse_response"},
+            ctx.violate({"body_hex": body.hex(), "chunks": [c.hex() for c in parts], "gzip": gz, "via": "parse_response"},
                         "parse_response gave %r %r, whole decoding is %r" % (k, v, text), key="client-parse-response")
         inside = boundary_inside_char(chunks)
         ctx.count(case_repr={"client_body": text[:40], "chunks": [c.hex() for c in chunks][:8], "gzip": gz},
@@ -222,9 +593,9 @@ def run(ctx):
                             "server handed %r (status %r) to the dispatcher, whole decoding is %r" % (got, status, text),
                             key="server-reassembly")
             else:
-                m = frame_monitor(hlines, written, text, cfg, "Content-type", "Content-length")
+                m = frame_monitor(hlines, written, text, cfg)
                 if m:
-                    ctx.violate({"body_hex": body.hex(), "via": "do_POST reply"}, m, key="server-frame")
+                    ctx.violate({"body_hex": body.hex(), "reads": list(sizes), "via": "do_POST"}, m, key="server-frame")
         lines.append("wserver %d %d %s %s" % (MAXCHUNK, len(body), hx(body + extra), " ".join(str(s) for s in sizes)))
         if status == [200] and got:
             impl_out.append("ok %s" % hs(got[0]))
@@ -245,18 +616,39 @@ def run(ctx):
                   nontrivial_key=("s", body.hex()[:40], tuple(sizes)) if inside else None,
                   kind="server/%s/%s" % ("complete" if complete else "short", "cut-in-char" if inside else "clean"))
 
-    def frame_monitor(hlines, written, text, cfg, ctname, clname):
-        body = text.encode("utf-8")
-        d = {}
-        for k, v in hlines:
-            d.setdefault(k.lower(), []).append(v)
-        if d.get("content-length") != [str(len(body))]:
-            return "Content-Length %r, body has %d bytes" % (d.get("content-length"), len(body))
-        if d.get("content-type") != [cfg.content_type]:
-            return "Content-Type %r, configured %r" % (d.get("content-type"), cfg.content_type)
-        if written is not None and written != body:
-            return "body bytes %r differ from the encoding of %r" % (written[:40], text[:40])
-        return None
+    def post_case(stream, sizes, cfg, declared, spec):
+        """The whole of do_POST, every way its try block can end; framing monitor on whatever reply is produced."""
+        status, got, hlines, written = drive_do_post(stream, sizes, cfg, declared=declared, dispatch=spec)
+        case = {"via": "do_POST reply", "stream_hex": stream.hex(), "reads": list(sizes), "declared": declared,
+                "dispatch": spec, "content_type": cfg.content_type}
+        m = reply_frame_monitor(hlines, written, cfg)
+        if m is None and status not in ([200], [500]):
+            m = "status %r" % (status,)
+        if m is None and got and status == [200]:
+            want = {"echo": got[0], "none": "", "empty": ""}.get(spec) if isinstance(spec, str) else spec[1]
+            if want is not None and written != want.encode("utf-8"):
+                m = "reply body %r is not the encoding of the dispatcher's result %r" % (written[:40], want[:40])
+        if m:
+            ctx.violate(case, m, key="server-frame")
+        fault = ""
+        if status == [500]:
+            try:
+                fault = written.decode("utf-8")
+            except UnicodeDecodeError:
+                fault = None
+        if fault is not None and isinstance(declared, int):
+            disp = spec if isinstance(spec, str) else "text:" + hs(spec[1]) if spec[1] else "empty"
+            lines.append("wpost %d %s %s %d %s %s %s" % (MAXCHUNK, hs(cfg.content_type), hs(fault), declared, hx(stream), disp,
+                                                         " ".join(str(s) for s in sizes)))
+            impl_out.append("%s %s %s %s" % (status[0] if status else "?", dict((k.lower(), v) for k, v in hlines).get("content-length", "?"),
+                                             hs(dict((k.lower(), v) for k, v in hlines).get("content-type", "?")), hx(written)))
+        elif fault is not None:
+            lines.append("wpost %d %s %s none %s %s %s" % (MAXCHUNK, hs(cfg.content_type), hs(fault), hx(stream),
+                                                           spec if isinstance(spec, str) else "empty", " ".join(str(s) for s in sizes)))
+            impl_out.append("%s %s %s %s" % (status[0] if status else "?", dict((k.lower(), v) for k, v in hlines).get("content-length", "?"),
+                                             hs(dict((k.lower(), v) for k, v in hlines).get("content-type", "?")), hx(written)))
+        ctx.count(kind="post/%s/%s" % (spec if isinstance(spec, str) else "text", status[0] if status else "?"),
+                  nontrivial_key=("p", stream.hex()[:30], tuple(sizes)[:6], str(declared), str(spec)[:20]) if status == [500] or spec in ("none", "empty") else None)
 
     def frame_case(text, cfg):
         body = text.encode("utf-8")
@@ -264,28 +656,43 @@ def run(ctx):
         t = J.Transport(cfg)
         rec = Rec()
         t.send_content(rec, text)
-        m = frame_monitor(rec.lines, rec.body if body else None, text, cfg, "Content-Type", "Content-Length")
+        m = frame_monitor(rec.lines, rec.body if body else None, text, cfg)
         if m:
-            ctx.violate({"body": text, "via": "client send_content"}, m, key="client-frame")
+            ctx.violate({"body": text, "content_type": cfg.content_type, "via": "client send_content"}, m, key="client-frame")
         # server reply
         status, got, hlines, written = drive_do_post(b"{}", [2], cfg, reply_text=text)
-        m = frame_monitor(hlines, written, text, cfg, "Content-type", "Content-length")
+        m = frame_monitor(hlines, written, text, cfg)
         if m or status != [200]:
-            ctx.violate({"body": text, "via": "do_POST reply"}, m or "status %r" % status, key="server-frame")
-        # CGI
-        cgi_lines, cgi_body = run_cgi(SRV, cfg, text)
-        m = frame_monitor(cgi_lines, cgi_body, text, cfg, "Content-Type", "Content-Length")
+            ctx.violate({"via": "do_POST reply", "stream_hex": b"{}".hex(), "reads": [2], "declared": 2,
+                         "dispatch": ["text", text], "content_type": cfg.content_type}, m or "status %r" % status, key="server-frame")
+        # CGI (default encoding)
+        oc, cgi_lines, cgi_body, head = run_cgi(SRV, cfg, text)
+        m = cgi_monitor(oc, cgi_lines, cgi_body, head, text, cfg, None) or frame_monitor(cgi_lines, cgi_body, text, cfg)
         if m:
-            ctx.violate({"body": text, "via": "CGI"}, m, key="cgi-frame")
+            ctx.violate({"body": text, "content_type": cfg.content_type, "encoding": None, "via": "CGI"}, m, key="cgi-frame")
         lines.append("wframe %s %s" % (hs(cfg.content_type), hs(text)))
 
         def val(ls, name):
-            return [v for k, v in ls if k.lower() == name][0]
+            return ([v for k, v in ls if k.lower() == name] or ["?"])[0]
         impl_out.append(" ".join([val(rec.lines, "content-length"), val(hlines, "content-length"), str(val(cgi_lines, "content-length")),
                                   hx(written), hs(val(rec.lines, "content-type")), hs(val(hlines, "content-type")),
                                   hs(val(cgi_lines, "content-type"))]))
         ctx.count(kind="frame/%s" % ("ascii" if len(body) == len(text) else "multibyte"),
                   nontrivial_key=("f", text[:20], cfg.content_type) if len(body) != len(text) else None)
+
+    def cgi_case(text, cfg, enc):
+        oc, hl, body, head = run_cgi(SRV, cfg, text, enc)
+        m = cgi_monitor(oc, hl, body, head, text, cfg, enc)
+        if m:
+            ctx.violate({"body": text, "content_type": cfg.content_type, "encoding": enc, "via": "CGI"}, m, key="cgi-frame")
+        lines.append("wcgi %s %s %s" % (hs(enc), hs(cfg.content_type), hs(text)))
+        if oc[0] == "ok":
+            d = dict((k.lower(), v) for k, v in hl)
+            impl_out.append("ok %s %s %s" % (d.get("content-length", "?"), hs(d.get("content-type", "?")), hx(body)))
+        else:
+            impl_out.append("err " + type(oc[1]).__name__)
+        ctx.count(kind="cgi/%s/%s" % (enc, "ok" if oc[0] == "ok" else type(oc[1]).__name__),
+                  nontrivial_key=("g", enc, text[:20]) if len(text.encode("utf-8")) != len(text) else None)
 
     # ---- client + server reassembly
     small = [t for t in TEXTS if len(t.encode("utf-8")) <= (12 if ctx.thorough else 10)]
@@ -309,36 +716,193 @@ def run(ctx):
         elif r < 0.3:
             sizes = [s + ctx.rng.randint(0, 3) for s in sizes] + [5]  # reads offer more than requested
         server_case(text, sizes, cfgs[0], extra=b"NEXT" if ctx.rng.random() < 0.3 else b"")
+
+    # ---- do_POST: every way the try block ends (200 with text / "" / None, 500 with the fault body)
+    prng = ctx.derive_rng("post")
+    specs = ["echo", "none", "empty", "raise", ["text", "é"], ["text", '{"result": "日本"}']]
+    for spec, cfg in itertools.product(specs, cfgs):
+        post_case("é{}".encode("utf-8"), [1, 1, 2], cfg, 4, spec)
+    for cfg in cfgs:
+        post_case(b"\xc3", [1], cfg, 1, "echo")                    # undecodable body -> 500
+        post_case(b"\xff\xfe{}", [4], cfg, 4, "echo")              # invalid UTF-8 -> 500
+        post_case("é".encode("utf-8"), [1], cfg, 2, "echo")        # connection ends inside a character -> 500
+        post_case(b"{}", [2], cfg, "missing", "echo")              # no Content-Length header -> int(None) raises -> 500
+        post_case(b"{}", [2], cfg, "abc", "echo")                  # not an integer -> 500
+        post_case(b"", [], cfg, 0, "echo")                         # empty body: dispatcher gets ""
+    for _ in range(ctx.budget(80, 1500)):
+        text = "".join(prng.choice("ab{}\":, é日\U0001f600") for _ in range(prng.randint(0, 30)))
+        b = text.encode("utf-8")
+        r = prng.random()
+        if r < 0.25 and b:
+            i = prng.randrange(len(b))
+            b = b[:i] + bytes([prng.choice([0xff, 0xc3, 0x80, 0xe6])]) + b[i + 1:]  # possibly invalid UTF-8
+        sizes = [len(c) for c in random_cuts(prng, b)] or [1]
+        if prng.random() < 0.15:
+            sizes = sizes[:-1]
+        spec = prng.choice(specs + ["echo", "raise"])
+        post_case(b, sizes, prng.choice(cfgs), len(b), spec)
+
     # ---- framing
     for text, cfg in itertools.product(TEXTS, cfgs):
         frame_case(text, cfg)
     for _ in range(ctx.budget(60, 600)):
         text = "".join(ctx.rng.choice("ab{}\":, é日\U0001f600") for _ in range(ctx.rng.randint(0, 200)))
         frame_case(text, ctx.rng.choice(cfgs))
-    # ---- targets and schemes
-    schemes = ["http", "https", "unix+http", "unix+https", "ftp", "", "HTTP", "unix", "unix+", "unix+ftp", "httpx", "ws", "file"]
-    paths = ["", "/", "/RPC2", "/a/b%20c", "/é", "//x", "/tmp/sock.s"]
-    queries = ["", "a=1", "a=1&b=%2F", "x", "q=é", "a=b=c"]
-    for sch, path, q in itertools.product(schemes, paths, queries):
-        target_case(ctx, J, lines, impl_out, sch, "host:8080", path, q)
-    # ---- a body beyond the server's read-chunk size, over the fake connection (thorough)
-    if ctx.thorough and not ctx.searching:
+    # ---- CGI with the encoding= constructor parameter
+    grng = ctx.derive_rng("cgi")
+    cgi_texts = ["", "{}", "abc", "é", "ÿ\u00a0", "日本語", "a\U0001f600b", '{"k": "\u20ac"}', "x" * 300, "\x7f\x80"]
+    for text, enc in itertools.product(cgi_texts, CGI_ENCODINGS):
+        cgi_case(text, cfgs[(len(text) + len(enc)) % len(cfgs)], enc)
+    for _ in range(ctx.budget(60, 600)):
+        alpha = grng.choice(["ab{}\":, ", "ab{}é\u00ff\u00a0", "ab{}\":, é日\U0001f600€"])
+        text = "".join(grng.choice(alpha) for _ in range(grng.randint(0, 80)))
+        cgi_case(text, grng.choice(cfgs), grng.choice(CGI_ENCODINGS))
+
+    # ---- a body beyond the server's read-chunk size with a multi-byte character on the chunk boundary, over the fake
+    #      connection (costs ~0.1 s: part of the quick tier too; only the search stage skips it)
+    if not ctx.searching:
         big = ("x" * (MAXCHUNK - 1)) + "é" + "tail"
         bb = big.encode("utf-8")
         status, got, hl, wr = drive_do_post(bb, [len(bb)] * 3, cfgs[0], reply_text="")
         if status != [200] or got != [big]:
-            ctx.violate({"via": "do_POST", "body": "x*(10MiB-1) + é + tail"},
-                        "body beyond the read-chunk size with a multi-byte character across the boundary: status %r" % status,
-                        key="server-reassembly-big")
+            ctx.violate({"via": "do_POST big", "body": "x*(10MiB-1) + é + tail"},
+                        "body beyond the read-chunk size with a multi-byte character across the boundary: status %r, dispatcher got %s"
+                        % (status, "the body" if got == [big] else ("%d texts" % len(got))), key="server-reassembly-big")
         ctx.count(kind="server/big-body", nontrivial_key=("big",))
+        del big, bb, got
+
+    # ---- request targets and schemes
+    targets(ctx, env, cfgs, lines, impl_out)
 
     outs = ctx.lean(lines)
+    unmodelled = 0
     for ln, mo, io_ in zip(lines, outs, impl_out):
         m = mo.split(" chunks=")[0]
+        if m == "err Unmodelled":
+            unmodelled += 1
+            continue
         if m != io_:
             ctx.disagree(ln[:400], io_[:400], m[:400], component=ln.split(" ")[0])
-    ctx.traces_validated += len(lines)
-    ctx.assumptions.append("gzip decompression and urllib.parse.urlparse are CPython, outside the model (the gzip path is exercised on the real parser only)")
+    ctx.traces_validated += len(lines) - unmodelled
+    ctx.hist["model/unmodelled (CGI codecs other than utf-8/ascii/latin-1)"] += unmodelled
+    ctx.assumptions.append("gzip decompression and urllib.parse.urlparse are CPython, outside the model (the gzip path is exercised on the real parser only; the URL monitor builds the URL from its own path/query pieces and does not ask urlparse)")
+    ctx.assumptions.append("a bare '?' (empty query) contributes nothing to the request target: urlparse drops it and the library requests the path alone; ';' path parameters (urlparse splits them off the last segment for http/https) and '#' fragments are excluded as the property says")
+    ctx.assumptions.append("targets http.client cannot write (non-ASCII, control characters, space) make putrequest raise before any byte is emitted: counted as 'rejected', not as a wrong target")
+
+
+def targets(ctx, env, cfgs, lines, impl_out):
+    J = env.J
+    urng = ctx.derive_rng("url")
+
+    def one(pc, via, kind, cfg=None):
+        cfg = cfg or env.cfg
+        uri0 = build_uri(pc)
+        try:
+            su = urlparse(uri0)
+        except ValueError:
+            ctx.count(kind="url/unparsable")
+            return
+        supported = pc["scheme"] in SUPPORTED
+        # construction with the default transport decides acceptance (no connection is made)
+        k, v = impl.outcome(J.ServerProxy, uri0)
+        if supported and k != "ok":
+            ctx.violate({"via": "scheme", "uri": uri0}, "supported scheme rejected: %r" % (v,), key="scheme-reject")
+        if not supported and (k != "err" or not isinstance(v, IOError)):
+            ctx.violate({"via": "scheme", "uri": uri0}, "unsupported scheme %r accepted (%s %r)" % (pc["scheme"], k, v), key="scheme-accept")
+        if k == "ok":
+            try:
+                v("close")()
+            except Exception:  # noqa: BLE001
+                pass
+        if not supported or k != "ok":
+            lines.append("wtarget %s %s %s %s" % (hs(su.scheme), hs(su.netloc), hs(su.path), hs(su.query)))
+            impl_out.append("err OSError" if k != "ok" else "ok ?")
+            ctx.count(kind="url/%s/unsupported" % (pc["scheme"] or "none"), nontrivial_key=("u", pc["scheme"]))
+            return
+        uri, pc2, out, args, recs = send_through(env, pc, via, kind, cfg)
+        su2 = urlparse(uri)
+        ex = excluded(pc2)
+        if ex or su2.params or su2.fragment or (su2.path, su2.query) != (pc2["path"], pc2["query"]):
+            # outside the quantifier (or urlparse sees other pieces than the generator meant): counted, not judged
+            ctx.count(kind="url/excluded/%s" % (ex or ("params" if su2.params else "urlparse-differs")))
+            return
+        verdict, detail, captured = target_monitor(pc2, out, args, recs, cfg)
+        case = {"via": "target/" + via, "pieces": pc, "kind": kind, "uri": uri, "expected": expected_target(pc2),
+                "captured": captured, "content_type": cfg.content_type}
+        if verdict == "violation":
+            ctx.violate(case, "%s: %s" % (uri if len(uri) < 200 else uri[:200] + "...", detail), key="target")
+        if captured is not None:
+            lines.append("wtarget %s %s %s %s" % (hs(su2.scheme), hs(su2.netloc), hs(su2.path), hs(su2.query)))
+            impl_out.append("ok " + hs(captured))
+        feat = []
+        if pc2["path"].endswith("/") and len(pc2["path"]) > 1:
+            feat.append("trailing-slash")
+        if "//" in pc2["path"]:
+            feat.append("double-slash")
+        if "/./" in pc2["path"] or "/../" in pc2["path"]:
+            feat.append("dot-segment")
+        if "%" in pc2["path"] + pc2["query"]:
+            feat.append("percent")
+        if pc["has_q"] and not pc["query"]:
+            feat.append("bare-qmark")
+        if len(pc["query"]) > 2000:
+            feat.append("long-query")
+        for f in feat:
+            ctx.hist["url-feature/" + f] += 1
+        ctx.count(case_repr=None, kind="url/via-%s/%s/%s" % (via, pc2["scheme"], verdict),
+                  nontrivial_key=("u", via, pc["scheme"], pc2["path"][:60], pc2["query"][:60], len(pc2["query"])))
+
+    # systematic: every scheme x a small list of paths and queries (recording connection)
+    schemes = ["http", "https", "unix+http", "unix+https", "ftp", "", "HTTP", "unix", "unix+", "unix+ftp", "httpx", "ws", "file"]
+    paths = ["", "/", "/RPC2", "/a/b%20c", "/é", "//x", "/tmp/sock.s", "/api/v1/", "/a/./b/../c", "/a%2fb%2Fc"]
+    queries = [(False, ""), (True, "a=1"), (True, "a=1&b=%2F"), (True, "x"), (True, "q=é"), (True, "a=b=c"), (True, "")]
+    i = 0
+    for sch, path, (hq, q) in itertools.product(schemes, paths, queries):
+        i += 1
+        # scheme names are case-insensitive (urlparse lower-cases them): "HTTP" is the http scheme
+        one({"scheme": sch.lower(), "scheme_text": sch, "netloc": "host:8080", "path": path, "has_q": hq, "query": q},
+            "rec", "call" if i % 2 else "notify")
+
+    def rand_pc(ascii_only=False):
+        for _ in range(50):
+            hq, q = gen_query(urng)
+            pc = {"scheme": urng.choice(["http", "http", "https", "unix+http"]), "netloc": urng.choice(NETLOCS),
+                  "path": gen_path(urng), "has_q": hq, "query": q}
+            if not ascii_only or encodable(expected_target(pc)):
+                return pc
+        return {"scheme": "http", "netloc": "h", "path": "/x/", "has_q": False, "query": ""}
+
+    # random paths/queries through the real transports over the in-memory http.client connection
+    for n in range(ctx.budget(350, 6000)):
+        one(rand_pc(), "rec", "call" if urng.random() < 0.6 else "notify", cfg=cfgs[n % len(cfgs)] if n % 5 == 0 else None)
+    # a sample over real sockets: bytes of the request line as read by a raw recording peer
+    fixed = [("/api/v1/", True, "x=1"), ("//x", True, "a=1"), ("/a/./b/../c/", False, ""), ("/a%2fb%2Fc", True, "q=%2f%2F"),
+             ("", True, "a=b=c"), ("/", True, ""), ("/é", False, ""), ("/q", True, "q=é")]
+    for via in ("tcp", "unix"):
+        for path, hq, q in fixed:
+            one({"scheme": "http", "netloc": "h", "path": path, "has_q": hq, "query": q}, via, "call")
+        for n in range(ctx.budget(25, 400)):
+            one(rand_pc(ascii_only=(n % 8 != 0)), via, "call" if urng.random() < 0.6 else "notify")
+    # framing of client requests as bytes on a real socket (Transport.request with a text of the harness' choosing)
+    peer = env.peer("tcp")
+    for n, text in enumerate(TEXTS + ["é" * 3000]):
+        cfg = cfgs[n % len(cfgs)]
+        t = J.Transport(cfg)
+        k, v = impl.outcome(t.request, peer.netloc(), "/frame", text)
+        t.close()
+        recs = peer.collect()
+        if k == "err" and isinstance(v, (socket.timeout, ConnectionError)):
+            raise core.InfraError("socket trouble talking to the recording peer (tcp): %r" % (v,))
+        m = None
+        if len(recs) != 1:
+            m = "%d requests on the wire for one Transport.request (outcome %s %r)" % (len(recs), k, v)
+        else:
+            m = wire_frame_monitor(recs[0], cfg)
+            if m is None and recs[0].after_head != text.encode("utf-8"):
+                m = "body bytes on the wire %r are not the UTF-8 encoding of %r" % (recs[0].after_head[:40], text[:40])
+        if m:
+            ctx.violate({"via": "wire frame", "body": text, "content_type": cfg.content_type}, m, key="client-frame")
+        ctx.count(kind="frame/wire-tcp", nontrivial_key=("fw", text[:20]) if len(text.encode("utf-8")) != len(text) else None)
 
 
 class Rec(object):
@@ -356,86 +920,49 @@ class Rec(object):
         self.body = b
 
 
-def run_cgi(SRV, cfg, text):
-    class Out(io.StringIO):
-        def __init__(self):
-            io.StringIO.__init__(self)
-            self.buffer = io.BytesIO()
-
-    h = SRV.CGIJSONRPCRequestHandler(config=cfg)
-    h._marshaled_dispatch = lambda request_text, *a, **k: text
-    old = sys.stdout
-    out = Out()
-    sys.stdout = out
-    try:
-        h.handle_jsonrpc("{}")
-    finally:
-        sys.stdout = old
-    head = out.getvalue()
-    hl = []
-    for ln in head.splitlines():
-        if ":" in ln:
-            k, v = ln.split(":", 1)
-            hl.append((k.strip(), v.strip()))
-    return hl, out.buffer.getvalue()
-
-
-def target_case(ctx, J, lines, impl_out, scheme, netloc, path, query):
-    uri = "%s://%s%s%s" % (scheme, netloc, path, ("?" + query) if query else "")
-    try:
-        su = urlparse(uri)
-    except ValueError:
-        return
-    if su.params or su.fragment:
-        return
-    seen = []
-
-    class T(impl.LoopTransport):
-        def request(self, host, handler, request_body, verbose=0):
-            seen.append((host, handler))
-            return ""
-
-    # construction with the default transport decides acceptance (no connection is made)
-    k, v = impl.outcome(J.ServerProxy, uri)
-    supported = su.scheme in ("http", "https", "unix+http")
-    if supported and k != "ok":
-        ctx.violate({"uri": uri}, "supported scheme rejected: %r" % (v,), key="scheme-reject")
-    if not supported and (k != "err" or not isinstance(v, IOError)):
-        ctx.violate({"uri": uri}, "unsupported scheme %r accepted (%s %r)" % (su.scheme, k, v), key="scheme-accept")
-    if k == "ok":
-        try:
-            v("close")()
-        except Exception:
-            pass
-    lines.append("wtarget %s %s %s %s" % (hs(su.scheme), hs(su.netloc), hs(su.path), hs(su.query)))
-    if k == "ok":
-        p = J.ServerProxy(uri, transport=T(lambda b: ""))
-        p._notify.ping()
-        host, handler = seen[0]
-        unix = su.scheme.startswith("unix+")
-        want = ("/" if (unix or not su.path) else su.path) + (("?" + su.query) if su.query else "")
-        if handler != want:
-            ctx.violate({"uri": uri}, "request target %r, expected %r" % (handler, want), key="target")
-        impl_out.append("ok " + hs(handler))
-    else:
-        impl_out.append("err OSError")
-    ctx.count(kind="url/%s" % (su.scheme or "none"), nontrivial_key=("u", su.scheme, bool(su.path), bool(su.query)))
+# --------------------------------------------------------------------------------------------
 
 
 def replay(payload):
-    print(json.dumps(payload.get("case"), indent=1)[:3000])
     case = payload.get("case", {})
+    shown = dict(case)
+    if isinstance(shown.get("pieces"), dict) and len(shown["pieces"].get("query", "")) > 300:
+        shown["pieces"] = dict(shown["pieces"], query=shown["pieces"]["query"][:300] + "...(%d chars)" % len(case["pieces"]["query"]))
+    print(json.dumps(shown, indent=1, ensure_ascii=False)[:3000])
+    import jsonrpclib.SimpleJSONRPCServer as SRV
     J = impl.jsonrpclib.jsonrpc
-    cfg = impl.jsonrpclib.config.Config()
-    if case.get("via") == "do_POST" and "reads" in case:
+    cfg = impl.jsonrpclib.config.Config(content_type=case["content_type"]) if case.get("content_type") else impl.jsonrpclib.config.Config()
+    via = case.get("via", "")
+
+    def verdict(m):
+        if m:
+            print("VIOLATION reproduced:", m)
+            return 1
+        print("not reproduced on this tree")
+        return 0
+
+    if via == "do_POST" and "reads" in case:
         body = bytes.fromhex(case["body_hex"])
         status, got, hl, wr = drive_do_post(body, case["reads"], cfg)
-        print("status", status, "dispatcher got", got)
+        print("status", status, "dispatcher got", got, "headers", hl)
         if status != [200] or got != [body.decode("utf-8")]:
-            print("VIOLATION reproduced")
-            return 1
-        return 0
-    if case.get("via") == "JSONTarget":
+            return verdict("dispatcher got %r (status %r), whole decoding is %r" % (got, status, body.decode("utf-8")))
+        return verdict(frame_monitor(hl, wr, body.decode("utf-8"), cfg))
+    if via == "do_POST big":
+        big = ("x" * (MAXCHUNK - 1)) + "é" + "tail"
+        bb = big.encode("utf-8")
+        status, got, hl, wr = drive_do_post(bb, [len(bb)] * 3, cfg, reply_text="")
+        print("status", status, "dispatcher got the body:", got == [big])
+        return verdict(None if (status == [200] and got == [big]) else "status %r" % (status,))
+    if via == "do_POST reply":
+        spec = case["dispatch"]
+        status, got, hl, wr = drive_do_post(bytes.fromhex(case["stream_hex"]), case["reads"], cfg, declared=case["declared"], dispatch=spec)
+        print("status", status, "headers", hl, "written", wr[:200])
+        m = reply_frame_monitor(hl, wr, cfg)
+        if m is None and status == [200] and not isinstance(spec, str) and wr != spec[1].encode("utf-8"):
+            m = "reply body %r is not the encoding of %r" % (wr[:40], spec[1][:40])
+        return verdict(m)
+    if via == "JSONTarget":
         tgt = J.JSONTarget()
 
         def feed_all():
@@ -444,9 +971,59 @@ def replay(payload):
             return tgt.close()
         k0, out = impl.outcome(feed_all)
         print("feed/close ->", k0, repr(out))
-        if k0 != "ok" or out != bytes.fromhex(case["body_hex"]).decode("utf-8"):
-            print("VIOLATION reproduced")
-            return 1
-        return 0
+        want = bytes.fromhex(case["body_hex"]).decode("utf-8")
+        return verdict(None if (k0 == "ok" and out == want) else "reassembly %s %r differs from %r" % (k0, out, want))
+    if via == "parse_response":
+        want = bytes.fromhex(case["body_hex"]).decode("utf-8")
+        resp = ChunkResponse([bytes.fromhex(c) for c in case["chunks"]], {"content-encoding": "gzip"} if case.get("gzip") else {})
+        k, v = impl.outcome(J.Transport(cfg).parse_response, resp)
+        print("parse_response ->", k, repr(v))
+        return verdict(None if (k == "ok" and v == want) else "parse_response gave %s %r, whole decoding is %r" % (k, v, want))
+    if via == "client send_content":
+        rec = Rec()
+        text = case["body"]
+        J.Transport(cfg).send_content(rec, text)
+        print("header lines", rec.lines, "body", rec.body[:200])
+        return verdict(frame_monitor(rec.lines, rec.body if text else None, text, cfg))
+    if via == "CGI":
+        oc, hl, body, head = run_cgi(SRV, cfg, case["body"], case.get("encoding"))
+        print("outcome", oc, "header text", repr(head), "body", body[:200])
+        m = cgi_monitor(oc, hl, body, head, case["body"], cfg, case.get("encoding"))
+        if m is None and case.get("encoding") is None and oc[0] == "ok":
+            m = frame_monitor(hl, body, case["body"], cfg)
+        return verdict(m)
+    if via == "scheme":
+        uri = case["uri"]
+        k, v = impl.outcome(J.ServerProxy, uri)
+        sch = uri.split("://", 1)[0]
+        print("ServerProxy(%r) ->" % uri, k, repr(v))
+        return verdict(None if ((sch in SUPPORTED) == (k == "ok")) else "scheme %r: construction %s" % (sch, k))
+    if via.startswith("target/") or via == "wire frame":
+        env = Env()
+        try:
+            if via == "wire frame":
+                peer = env.peer("tcp")
+                t = J.Transport(cfg)
+                k, v = impl.outcome(t.request, peer.netloc(), "/frame", case["body"])
+                t.close()
+                recs = peer.collect()
+                print("outcome", k, repr(v), "on the wire:", [r.raw[:300] for r in recs])
+                m = "%d requests" % len(recs) if len(recs) != 1 else wire_frame_monitor(recs[0], cfg)
+                if m is None and recs[0].after_head != case["body"].encode("utf-8"):
+                    m = "body bytes on the wire are not the UTF-8 encoding of the text"
+                return verdict(m)
+            uri, pc2, out, args, recs = send_through(env, case["pieces"], via.split("/", 1)[1], case.get("kind", "call"), cfg)
+            print("uri:", uri if len(uri) < 400 else uri[:400] + "...")
+            print("outcome:", out[0], repr(out[1])[:200])
+            if args is not None:
+                print("putrequest arguments:", [(m, u if len(u) < 300 else u[:300] + "...") for m, u in args])
+            for r in recs:
+                print("request line on the wire:", r.request_line[:400])
+            want = expected_target(pc2)
+            print("expected target (path + query unchanged):", want if len(want) < 400 else want[:400] + "...")
+            v, detail, captured = target_monitor(pc2, out, args, recs, cfg)
+            return verdict(detail if v == "violation" else None)
+        finally:
+            env.close()
     print("replay of this case kind is manual: see the case above")
     return 2
